@@ -497,24 +497,35 @@ def hll_set_probe(facts):
         if not (fn["name"] == "find" and "CouponHashSet" in fn["pat"] and len(fn["params"]) == 3):
             continue
         decls = local_decls(fn)
-        st = [v for v in decls.values() if v["n"] == "stride"]
+        # the stride is whatever is added to the probe position: probe = (probe + X) & mask
+        pr = [v for v in decls.values() if v.get("init") is not None and strip_all(v["init"]).get("k") == "Bin" and strip_all(v["init"]).get("op") == "&" and any(strip_all(y).get("k") == "Ref" and strip_all(y).get("dk") == "param" for y in (strip_all(v["init"])["l"], strip_all(v["init"])["r"]))]
+        st = []
+        if pr:
+            steps = []
+            walk(fn["body"], lambda n: steps.append(n) if n.get("k") == "Assign" and n.get("op") == "=" and strip_all(n["l"]).get("d") == pr[0]["d"] else None)
+            for a in steps:
+                add = []
+                walk(a["r"], lambda n: add.append(n) if n.get("k") == "Bin" and n.get("op") == "+" else None)
+                for b in add:
+                    for y in (strip_all(b["l"]), strip_all(b["r"])):
+                        if y.get("k") == "Ref" and y.get("d") in decls and y.get("d") != pr[0]["d"]:
+                            st.append(decls[y["d"]])
         key = "CouponHashSet::find:stride"
         if not st or st[0].get("init") is None:
-            out.append(ob("layout.hll-set-probe", key, fn["pat"], "unrecognised", "no local `stride` found", fn["qname"]))
+            out.append(ob("layout.hll-set-probe", key, fn["pat"], "unrecognised", "no `probe = (probe + stride) & mask` step found", fn["qname"]))
             continue
         e = strip_all(st[0]["init"])
         ok = False
         why = txt(e)
         if e.get("k") == "Bin" and e.get("op") == "|" and strip_all(e["r"]).get("v") == 1:
             sh = strip_all(e["l"])
-            if sh.get("k") == "Bin" and sh.get("op") == ">>" and txt(sh["r"]) == "lgArrInts":
+            if sh.get("k") == "Bin" and sh.get("op") == ">>" and strip_all(sh["r"]).get("k") == "Ref" and strip_all(sh["r"]).get("dk") == "param":
                 m = strip_all(sh["l"])
                 if m.get("k") == "Bin" and m.get("op") == "&":
                     sides = [strip_all(m["l"]), strip_all(m["r"])]
-                    ok = any(s.get("k") == "Ref" and s.get("n") == "coupon" for s in sides) and any(s.get("v") == 0x3ffffff for s in sides)
+                    ok = any(s.get("k") == "Ref" and s.get("dk") == "param" for s in sides) and any(s.get("v") == 0x3ffffff for s in sides)
         out.append(ob("layout.hll-set-probe", key, st[0]["loc"], "discharged" if ok else "violated", "stride = ((coupon & KEY_MASK_26) >> lgArrInts) | 1" if ok else "probe stride is `%s`, documented `((coupon & KEY_MASK_26) >> lgArrInts) | 1`: for tables of 2^14 slots and more the value bits of the coupon leak into the stride, so coupons sit in slots that a reader probing as documented (Java, earlier releases) never visits - and the reverse for images it reads" % why, fn["qname"]))
-        pr = [v for v in decls.values() if v["n"] == "probe"]
-        ok2 = bool(pr) and txt(pr[0].get("init")).replace(" ", "") == "(coupon&arrMask)"
+        ok2 = bool(pr)
         out.append(ob("layout.hll-set-probe", "CouponHashSet::find:start", fn["pat"], "discharged" if ok2 else "violated", "start = coupon & (size - 1)" if ok2 else "probe start is `%s`" % (txt(pr[0].get("init")) if pr else "?"), fn["qname"]))
     if not out:
         out.append(ob("layout.hll-set-probe", "anchor", "", "unrecognised", "CouponHashSet find not found", ""))
